@@ -529,6 +529,8 @@ class Exec:
                 out.append((s, v))
             elif isinstance(node.op, ast.Not):
                 out.append((s, T(M.BoolV(z3.Not(self.truth(v, s))), "bool")))
+            elif isinstance(node.op, ast.UAdd):
+                out.append((s, v))
             elif isinstance(node.op, ast.USub):
                 z = self.term(v, s)
                 out.append((s, T(z3.If(M.is_intlike(z), M.IntV(-M.int_of(z)),
@@ -614,8 +616,30 @@ class Exec:
                     r = self.to_text(v, s, conv)
                     parts.append(r)
             z = parts[0] if len(parts) == 1 else (z3.Concat(*parts) if parts else z3.StringVal(""))
+            z = z3.simplify(z)
+            self.note_concat(s, z, self.flat_concat(z))
             out.append((s, T(M.StrV(z), "str")))
         return out
+
+    def flat_concat(self, z: Any) -> List[Any]:
+        if z3.is_app(z) and z.decl().kind() == z3.Z3_OP_SEQ_CONCAT:
+            out: List[Any] = []
+            for c in z.children():
+                out += self.flat_concat(c)
+            return out
+        return [z]
+
+    def note_concat(self, st: State, z: Any, parts: List[Any]) -> None:
+        """String-theory facts the solver is slow to find: a concatenation contains each of its parts,
+        and all_in distributes over it.  Theorems of the theory, added as hints."""
+        parts = [p for p in parts]
+        if len(parts) > 1:
+            for q in parts:
+                if not z3.is_string_value(q):
+                    st.assume(z3.Contains(z, q))
+            al = z3.Const("cal", M.S)
+            st.assume(z3.ForAll([al], M.all_in(z, al) == z3.And(*[M.all_in(p, al) for p in parts]),
+                                patterns=[M.all_in(z, al)]))
 
     def to_text(self, v: Any, st: State, conv: str) -> Any:
         """repr()/str() text.  Text of non-string objects is uninterpreted (a total function of the
@@ -927,11 +951,20 @@ class Exec:
 
     def binop(self, op: ast.operator, a: Any, b: Any, st: State) -> List[Tuple[State, Any]]:
         ha, hb = self.hint_of(a, st), self.hint_of(b, st)
+        if isinstance(op, ast.Add) and ("str" in (ha, hb)) and (ha != hb) and isinstance(a, T) and isinstance(b, T):
+            other = b if ha == "str" else a
+            if self.proves(st, M.is_StrV(other.z)):
+                if ha == "str":
+                    b, hb = T(b.z, "str"), "str"
+                else:
+                    a, ha = T(a.z, "str"), "str"
         if isinstance(op, ast.Add):
             if isinstance(a, Tup) and isinstance(b, Tup):
                 return [(st, Tup(a.items + b.items))]
             if ha == "str" and hb == "str":
-                return [(st, T(M.StrV(z3.Concat(M.sval(self.term(a, st)), M.sval(self.term(b, st)))), "str"))]
+                zc = z3.simplify(z3.Concat(M.sval(self.term(a, st)), M.sval(self.term(b, st))))
+                self.note_concat(st, zc, self.flat_concat(zc))
+                return [(st, T(M.StrV(zc), "str"))]
             if ha in ("list",) and hb in ("list",):
                 za = self.seq_snap(a, st)
                 zb = self.seq_snap(b, st)
@@ -944,6 +977,11 @@ class Exec:
             st.assume(z3.Length(r) == z3.If(n > 0, n, 0) * z3.Length(M.sval(za)))
             self.used_assumptions.add("str * int: only the length of the result is modelled")
             return [(st, T(M.StrV(r), "str"))]
+        if isinstance(op, ast.Sub) and ha in ("date", "datetime") and hb == "timedelta":
+            r = M.fresh("date")
+            st.assume(M.is_Ref(r), M.rcls(r) == self.ct.id(ha))
+            self.used_assumptions.add("builtin: date - timedelta is a date (OverflowError outside year 1..9999 not modelled)")
+            return [(st, T(r, ha))]
         za, zb = self.term(a, st), self.term(b, st)
         if isinstance(op, (ast.Add, ast.Sub, ast.Mult)):
             ok = z3.And(M.is_num(za), M.is_num(zb))
@@ -1082,7 +1120,13 @@ class Exec:
             n = z3.Length(M.sval(z))
             l = self.clamp(M.int_of(self.term(lo, st)), n) if lo is not None else z3.IntVal(0)
             u = self.clamp(M.int_of(self.term(hi, st)), n) if hi is not None else n
-            return [(st, T(M.StrV(z3.SubString(M.sval(z), l, z3.If(u >= l, u - l, 0))), "str"))]
+            sl = M.fresh("slice", M.S)      # named, with the facts the solver is slow to find
+            al = z3.Const("cal", M.S)
+            st.assume(sl == z3.SubString(M.sval(z), l, z3.If(u >= l, u - l, 0)),
+                      z3.Length(sl) == z3.If(u >= l, u - l, 0), z3.Contains(M.sval(z), sl),
+                      z3.ForAll([al], z3.Implies(M.all_in(M.sval(z), al), M.all_in(sl, al)),
+                                patterns=[M.all_in(sl, al)]))
+            return [(st, T(M.StrV(sl), "str"))]
         if h in ("list", "tuple"):
             n = M.llen(z)
             l = self.clamp(M.int_of(self.term(lo, st)), n) if lo is not None else z3.IntVal(0)
